@@ -21,6 +21,7 @@ NA = ['na']
 REMOVE = ['remove']
 
 V3_ONLY = ('na', 'list', 'dict', 'grid', 'xstr')
+SHARED_TZ = None     # when a dict: fixed-offset tzinfo objects are taken from / added to it instead of being built afresh
 
 
 def dt_text(naive_utc):
@@ -76,6 +77,11 @@ def from_model(m):
         if m[3] is not None:
             from hszinc import zoneinfo
             return utc.astimezone(pytz.timezone(zoneinfo.get_tz_map()[m[3]]))
+        if SHARED_TZ is not None:
+            # one long-lived tzinfo object per offset, the way a caller's constant or pytz.FixedOffset behaves
+            if m[2] not in SHARED_TZ:
+                SHARED_TZ[m[2]] = datetime.timezone(datetime.timedelta(seconds=m[2]))
+            return utc.astimezone(SHARED_TZ[m[2]])
         return utc.astimezone(datetime.timezone(datetime.timedelta(seconds=m[2])))
     if k == 'naive-datetime':
         return datetime.datetime.fromisoformat(m[1])
